@@ -1,6 +1,7 @@
 """C05 - every evaluation strategy returns the same density and likelihood;
 the custom tensor contraction returns the reference contraction or declines."""
 
+import json
 import math
 
 import numpy as np
@@ -82,6 +83,12 @@ def strategy_equivalence(ctx, case):
     if not spec["chains"]:
         return {"skip": "no_chain"}
     sfx = env.uniq()
+    if case.get("float_shape"):
+        # mass and width of one resonance float: cached line shapes must only be used for the chains with fixed shapes
+        spec = json.loads(json.dumps(spec))
+        ch = spec["chains"][case["ev_seed"] % len(spec["chains"])]
+        k0 = sorted(ch["res"])[0]
+        ch["res"][k0] = dict(ch["res"][k0], float="mg")
     cfg, nm = gen.build(spec, sfx=sfx)
     with EinsumSpy(ctx) as spy:
         config = cards.load(cfg)
@@ -102,10 +109,16 @@ def strategy_equivalence(ctx, case):
             changed[k] = 0.3 + 1.5 * v
         elif k.endswith("i"):
             changed[k] = (2 * v - 1) * math.pi
+        elif k.endswith("_mass"):
+            changed[k] = ref_params[k] * (1 + 0.03 * (v - 0.3))
+        elif k.endswith("_width"):
+            changed[k] = ref_params[k] * (0.8 + 0.6 * v)
     amp.set_params(changed)
     d0b, _ = cards.density(config, amp, p)
     amp.set_params(ref_params)
     cls = gen.describe(spec)
+    if case.get("float_shape"):
+        cls.append("floating_line_shape")
     nvar = 0
     for sname in case["strategies"]:
         opts = STRATEGIES[sname]
@@ -284,6 +297,7 @@ def strat_case_st():
             "ev_seed": st.integers(0, 2**31 - 1),
             "n_ev": st.just(12),
             "strategies": st.lists(st.sampled_from(names), min_size=3, max_size=4, unique=True),
+            "float_shape": st.booleans(),
         }
     )
 
